@@ -45,6 +45,8 @@ import (
 	"os"
 	"os/exec"
 	"path/filepath"
+	"regexp"
+	"strconv"
 	"strings"
 	"sync"
 	"time"
@@ -266,6 +268,7 @@ func evaluate(srv *pvpeg.Server, pigeon, dir string, seed int64, i int, av pvpeg
 
 	// flags
 	var flags []string
+	var entryNames []string // existing rules named by -alternate-entrypoints: they must survive as entrypoints
 	has := map[string]bool{}
 	add := func(fl ...string) {
 		flags = append(flags, fl...)
@@ -297,7 +300,21 @@ func evaluate(srv *pvpeg.Server, pigeon, dir string, seed int64, i int, av pvpeg
 				names = append(names, []string{"Nope", "", "A", "x y"}[r.Intn(4)])
 			}
 		}
-		add("-alternate-entrypoints", strings.Join(names, ","))
+		if len(names) > 1 && r.Intn(2) == 0 {
+			// the flag may be repeated: every occurrence counts
+			for _, nm := range names {
+				add("-alternate-entrypoints", nm)
+			}
+		} else {
+			add("-alternate-entrypoints", strings.Join(names, ","))
+		}
+		for _, nm := range names {
+			for _, rl := range f.rules {
+				if rl == nm {
+					entryNames = append(entryNames, nm)
+				}
+			}
+		}
 	}
 	outFile := ""
 	if has["-debug"] || r.Intn(3) == 0 {
@@ -407,6 +424,13 @@ func evaluate(srv *pvpeg.Server, pigeon, dir string, seed int64, i int, av pvpeg
 			}
 		} else {
 			src = so.Bytes()
+		}
+		for _, nm := range entryNames {
+			// the rules table of the generated parser is built from the name fields of the emitted rules
+			if !regexp.MustCompile(`name:\s+` + regexp.QuoteMeta(strconv.Quote(nm)) + `,`).Match(src) {
+				fail("entrypoint-lost", fmt.Sprintf("rule %s was named by -alternate-entrypoints but the generated parser has no rule of that name", nm))
+				break
+			}
 		}
 		if _, err := parser.ParseFile(token.NewFileSet(), "out.go", src, parser.AllErrors|parser.SkipObjectResolution); err != nil {
 			// a grammar without an init block has no package clause (doc.go
